@@ -314,7 +314,8 @@ def gen(ctx):
     # boundary-directed random walks
     rng = ctx.rng("gen")
     R = 1 if q else 8
-    for N in AL_N:
+    dn = param("c11_param_al_default_N", 100)          # ArrayList<int> with its default chunk size (driver uses the default template argument)
+    for N in sorted(set([n for n in AL_N if n <= 16] + [dn])):
         for j in range(25 * R):
             cases.append(al_random(rng, N, rng.choice([20, 60, 200])))
     for j in range(250 * R):
@@ -328,6 +329,18 @@ def gen(ctx):
     for bs in BV_BS:
         for j in range(30 * R):
             cases.append(bv_random(rng, bs, rng.choice([10, 40, 100])))
+    # rejection stream: push_back / emplace_back on an exactly full ReservedVector (documented precondition size() < n; the driver is
+    # built with CHECK_RESERVEDVECTOR, so the real code must refuse by assert; the model must report UB, the spec a violated precondition)
+    for n in RV_N:
+        for form in ("pb", "pbm", "eb"):
+            for i in (0, 1):
+                cases.append("rv %d " % n + " ".join("pb:%d:%d" % (i, k) for k in range(n)) + " %s:%d:9" % (form, i))
+                cases.append("rv %d mk:%d:%d:7 %s:%d:9" % (n, i, n, form, i))
+                cases.append("rv %d rsz:%d:%d pop:%d pb:%d:1 %s:%d:9" % (n, i, n, i, i, form, i))
+        for j in range(6 * R):
+            h = rv_random(rng, n, rng.choice([5, 20])).split()
+            # replay sizes to find the final size of vector 0, then fill it and push once more
+            cases.append(" ".join(h) + " rsz:0:%d %s:0:5" % (n, rng.choice(["pb", "pbm", "eb"])))
     return cases, ncorpus, nexh
 
 
@@ -349,6 +362,7 @@ def build_impl(ctx, pr):
     for k, b in CONT.items():
         flags = []
         if k == "sl" and pr["probe_sllist"][0]: flags.append("-DC11_SL_DEFAULT_ALLOC")
+        if k == "rv": flags.append("-DCHECK_RESERVEDVECTOR")      # the header's own size checks (assert) are part of the observed behaviour
         if k == "lru" and pr["probe_lru"][0]: flags.append("-DC11_LRU_SELF_CONTAINED")
         if k == "lru" and pr["probe_lru_cfind"][0]: flags.append("-DC11_LRU_CONST_FIND")
         if k == "lru" and pr["probe_lru_cback"][0]: flags.append("-DC11_LRU_CONST_BACK")
@@ -419,8 +433,22 @@ def judge(case, impl, model_line):
     k, ops = t[0], t[2:]
     ist, sst, mst = impl.split(";"), s.split(";"), m.split(";")
     res = {"ok": True, "model": m, "spec": s, "orig": o, "drift": None, "deep": parts[3] if len(parts) > 3 else "-"}
-    if "PRE" in sst or "UNKNOWN" in s:
-        res["ok"] = None      # generator emitted a history outside the documented preconditions: not judged
+    if "UNKNOWN" in s:
+        res["ok"] = None
+        return res
+    if "PRE" in sst:
+        j = sst.index("PRE")
+        op = ops[j] if j < len(ops) else "?"
+        if k == "rv" and op.split(":")[0] in ("pb", "pbm", "eb") and all(spec_match(x, y) for x, y in zip(sst[:j], ist[:j])) and len(ist) > j:
+            # rejection stream: the spec refuses the op (vector exactly full); model must say UB, the checked build must refuse as well
+            res["rejection"] = True
+            if mst[j:j + 1] != ["UB"]:
+                res.update(ok=False, step=j, op=op, sig="corr:C11/reservedvector:rejection-model", reason="model does not report UB for %s on a full vector: %r" % (op, mst[j:j + 1]))
+            elif ist[j] != "UB":
+                res.update(ok=False, step=j, op=op, sig="C11:reservedvector:full-push-not-refused",
+                           reason="after op #%d (%s) on an exactly full vector the checked build shows %r instead of refusing (assert)" % (j, op, ist[j]))
+            return res
+        res["ok"] = None      # any other history outside the documented preconditions: not judged
         return res
     for j in range(len(sst)):
         a = ist[j] if j < len(ist) else "<missing>"
@@ -466,7 +494,19 @@ def shrink(ctx, impls, model, case, sig):
     return " ".join(head + ops)
 
 
+def params_hook(ctx):
+    V.sh([sys.executable, os.path.join(V.VERIF, "tools", "extract_params.py"), ctx.repo], check=True)
+
+
+def param(name, default):
+    try:
+        return int(json.load(open(os.path.join(V.VERIF, "build", "params_report.json")))[name]["value"])
+    except Exception:
+        return default
+
+
 def run(ctx):
+    ctx.params_hook = params_hook
     V.coq_stage(ctx)
     model = V.build_model(ctx)
     pr = probes(ctx)
@@ -510,7 +550,7 @@ def run(ctx):
         if deep_diff:
             ctx.notes.append("MODEL DRIFT (deep stream): private state differs from the model on %d histories while the public stream agrees" % deep_diff)
         ctx.log("deep stream: %d histories compared, %d differ" % (deep_cmp, deep_diff))
-    nviol = ndrift = nskip = nms = 0
+    nviol = ndrift = nskip = nms = nrej = 0
     steps = 0
     kinds, opk, fails_by_sig = {}, {}, {}
     for c, a, m in zip(cases, io, mo):
@@ -520,8 +560,14 @@ def run(ctx):
         for op in t[2:]:
             key = t[0] + ":" + op.split(":")[0]; opk[key] = opk.get(key, 0) + 1
         j = judge(c, a, m)
+        if j.get("rejection"): nrej += 1
         if j["ok"] is None:
             nskip += 1; continue
+        if j.get("rejection"):
+            if j["ok"] is False:
+                nviol += 1
+                fails_by_sig.setdefault(j["sig"], []).append((c, a, j))
+            continue
         # model vs spec (the theorem's reading, re-checked on the generated cases)
         if not all(spec_match(x, y) for x, y in zip(j["spec"].split(";"), j["model"].split(";"))) or len(j["spec"].split(";")) != len(j["model"].split(";")):
             nms += 1
@@ -566,7 +612,8 @@ def run(ctx):
         "histories": len(cases), "histories_by_container": kinds, "op_distribution": opk, "corpus_cases": ncorpus, "exhaustive_histories": nexh,
         "arraylist_chunk_sizes": AL_N, "reservedvector_capacities": RV_N, "bitsetvector_block_sizes": BV_BS,
         "oracle_rejections": nviol, "oracle_rejections_by_signature": {k: len(v) for k, v in fails_by_sig.items()},
-        "impl_model_disagreements_accepted_by_oracle": ndrift, "histories_outside_preconditions_skipped": nskip, "model_spec_mismatches": nms,
+        "impl_model_disagreements_accepted_by_oracle": ndrift, "histories_outside_preconditions_skipped": nskip, "rejection_histories_full_push_refused": nrej,
+        "translated_constants": {n: param(n, None) for n in ("c11_param_al_chunk_threshold", "c11_param_al_min_chunk", "c11_param_al_default_N")}, "model_spec_mismatches": nms,
         "sanitizer": "all impl runs are -fsanitize=address,undefined -fno-sanitize-recover=all; an abort inside a history is the observation UB",
         "compile_probes": {k: v[0] for k, v in pr.items()}, "exhaustive": False,
         "harness_workarounds_active": [n for n, ok in (("sllist: allocator with allocate(n,hint)", pr["probe_sllist"][0]), ("lru: <cassert> included by the driver", pr["probe_lru"][0]),
